@@ -52,4 +52,17 @@ Section L.
     { apply (f_equal (@length A)) in H. rewrite !app_length in H. lia. }
     apply app_eq_len; assumption.
   Qed.
+  Lemma app4_slices (a b c d : list A) na nb nc :
+    length a = na -> length b = nb -> length c = nc ->
+    firstn na (a ++ b ++ c ++ d) = a /\
+    firstn nb (skipn na (a ++ b ++ c ++ d)) = b /\
+    firstn nc (skipn (na + nb) (a ++ b ++ c ++ d)) = c /\
+    skipn (na + nb + nc) (a ++ b ++ c ++ d) = d.
+  Proof.
+    intros <- <- <-. repeat split.
+    - apply firstn_app_exact.
+    - rewrite skipn_app_exact. apply firstn_app_exact.
+    - rewrite (app_assoc a b), <- app_length, skipn_app_exact. apply firstn_app_exact.
+    - rewrite (app_assoc a b), (app_assoc (a ++ b) c), <- !app_length. apply skipn_app_exact.
+  Qed.
 End L.
